@@ -93,6 +93,11 @@ def spot_oracles(V, opt, sc, bounds, g, stats):
     hi = np.array([b[1] for b in bounds])
     for _ in range(3):
         pts.append(lo + (hi - lo) * g.random(sc["d"]))
+    # (near-)coincident data points make the covariance matrix numerically singular: predictions stay
+    # usable but derivatives (analytic and numerical alike) are dominated by round-off
+    Xs = X.reshape(len(X), -1) / (hi - lo)
+    dmin = min([float(np.max(np.abs(Xs[a] - Xs[b]))) for a in range(len(Xs)) for b in range(a)] or [1.0])
+    ill_conditioned = dmin < 2e-3
     worst = int(np.argmin(opt.y))
     for off in (1e-3, 3e-3, 1e-2, 3e-2):
         p = X[worst] + off * (hi - lo) * g.choice([-1.0, 1.0], size=sc["d"])
@@ -144,6 +149,9 @@ def spot_oracles(V, opt, sc, bounds, g, stats):
         w = hi - lo
         if ((x - 2e-4 * w) < lo).any() or ((x + 2e-4 * w) > hi).any() or grad.shape[0] != sc["d"]:
             continue
+        if ill_conditioned:
+            stats["gradient_checks_skipped_duplicate_data"] += 1
+            continue
         if sg * sg < 1e-5 * float(np.var(opt.y)) + 1e-300:
             # a predictive variance this far below the signal variance is k** - k^T K^-1 k after
             # catastrophic cancellation (K is ill-conditioned next to data / near-duplicates): both the
@@ -166,7 +174,7 @@ def spot_oracles(V, opt, sc, bounds, g, stats):
             stats["gradient_checks_skipped"] += 1
             continue
         stats["gradient_checks"] += 1
-        if (np.abs(grad - n1) > 1e-3 * (np.abs(n1) + floor)).any():
+        if (np.abs(grad - n1) > 2e-2 * (np.abs(n1) + floor)).any():
             _viol(V, "acq.gradient", "%s: opt_func_gradient gives gradient %r at %r, central differences of opt_func give %r (and %r at a "
                   "ten times smaller step)" % (sc["acq"], grad.tolist(), x.tolist(), n1.tolist(), n2.tolist()))
             return
